@@ -102,6 +102,7 @@ def backtest_windows(fast, route_tf='5m', data_tf='15m', n=200):
         prev = c
     arr = np.array(rows)
     bad = []
+    calls = []
 
     class S(Strategy):
         def should_long(self): return False
@@ -111,6 +112,7 @@ def backtest_windows(fast, route_tf='5m', data_tf='15m', n=200):
         def go_short(self): pass
 
         def before(self):
+            calls.append(self.index)
             c15 = self.get_candles('Sandbox', 'BTC-USDT', data_tf)
             c1 = self.get_candles('Sandbox', 'BTC-USDT', '1m')
             for j in range(len(c15)):
@@ -125,6 +127,10 @@ def backtest_windows(fast, route_tf='5m', data_tf='15m', n=200):
     research.backtest(cfg, [{'exchange': 'Sandbox', 'strategy': S, 'symbol': 'BTC-USDT', 'timeframe': route_tf}],
                       [{'exchange': 'Sandbox', 'symbol': 'BTC-USDT', 'timeframe': data_tf}],
                       {'Sandbox-BTC-USDT': {'exchange': 'Sandbox', 'symbol': 'BTC-USDT', 'candles': arr}}, fast_mode=fast)
+    want_calls = n // K.MINUTES[route_tf]
+    if not bad and len(calls) != want_calls:
+        return (f'{"fast" if fast else "normal"} simulator, routes {route_tf} + {data_tf}, {n} minutes: the {route_tf} strategy was executed '
+                f'{len(calls)} times, expected once per {route_tf} candle = {want_calls}')
     if bad:
         if bad[0][1] == 'count':
             return (f'{"fast" if fast else "normal"} simulator, routes {route_tf} + {data_tf}: at strategy step {bad[0][0]} the {data_tf} series has '
